@@ -350,6 +350,11 @@ class FullExecutor(Executor):
 
     def alloc(self, st, rt: TRef) -> V:
         r = fresh(rt, "new_" + rt.cls)
+        if getattr(self, "loop_depth", 0) > 0:
+            # LIMITATION (listed in the evidence): the arbitrary iteration that stands for all iterations allocates at ONE
+            # symbolic address, so two objects allocated in different iterations are not known to be distinct
+            self.externals_used.add("engine limitation: an object allocated inside a verified loop is not distinguished from the "
+                                    f"objects allocated by other iterations of that loop ({rt.cls})")
         # fresh: distinct from every reference that existed before
         nxt = st.ghost.get("__alloc__", z3.IntVal(1 << 20))
         st.assume(r.z == nxt)
@@ -1165,7 +1170,12 @@ class FullExecutor(Executor):
             d0 = self.dec_value(it, k)
             if d0 is not None:
                 self.emit(it, "decreases", f"{k}:bounded", d0 >= 0)
-            for s2, oc in self.exec_block(it, s.body):
+            self.loop_depth = getattr(self, "loop_depth", 0) + 1
+            try:
+                body_outs = self.exec_block(it, s.body)
+            finally:
+                self.loop_depth -= 1
+            for s2, oc in body_outs:
                 if oc.kind in ("next", "continue"):
                     self.cur_line = line
                     self.check_inv(s2, k, "inv-preserve")
@@ -1299,7 +1309,12 @@ class FullExecutor(Executor):
             else:
                 item = STuple([V(z.ty.elem, z3.Select(seq_arr(z), i.z)) for z in zs])
             self.bind_target(it, s.target, item)
-            for s2, oc in self.exec_block(it, s.body):
+            self.loop_depth = getattr(self, "loop_depth", 0) + 1
+            try:
+                body_outs = self.exec_block(it, s.body)
+            finally:
+                self.loop_depth -= 1
+            for s2, oc in body_outs:
                 if oc.kind in ("next", "continue"):
                     self.cur_line = line
                     i2 = V(INT, i.z + 1)
